@@ -24,7 +24,8 @@ ASSUMPTIONS = ["versions are Python ints; integral-float / bool versions are gra
                "cryptography raw Ed25519 as oracle primitive (cross-checked in C19)"]
 
 FLAWS = ["none", "none", "none", "version", "version", "trusted_sigs", "own_sigs", "type_T", "type_N", "noroot_T", "noroot_N",
-         "malformed_T", "malformed_N", "junk_entry", "self_appointed", "threshold_from_new", "spelling_dups", "dup_keys_T", "dup_keys_N"]
+         "malformed_T", "malformed_N", "junk_entry", "self_appointed", "threshold_from_new", "spelling_dups", "dup_keys_T", "dup_keys_N",
+         "raised_threshold"]
 VERSION_PLANS = ["v", "v-1", "v+2", "1", "huge"]
 ENTRY_STATES = ["valid", "valid", "valid", "valid", "nonce", "raw_shape", "bitflip", "other_payload", "misfiled", "hex_whitespace"]
 
@@ -67,6 +68,15 @@ def root_pairs(draw):
         KN = rest or KN
         tN = 1
         signers = list(KN)
+    elif flaw == "raised_threshold":
+        # the offered root keeps the key set (listed in another order) and asks for MORE signatures than the trusted one did;
+        # the signers meet the old threshold only
+        if len(KT) < 2:
+            KT = (KT + rest)[:2]
+        KN = list(draw(st.permutations(KT)))
+        tT = draw(st.integers(1, len(KT) - 1))
+        tN = draw(st.integers(tT + 1, len(KN)))
+        signers = list(draw(st.permutations(KT)))[:draw(st.integers(tT, tN - 1))]
     elif flaw == "spelling_dups":
         # one signer short of the trusted threshold; the shortfall is "made up" by alternative spellings
         tT = max(2, tT) if len(KT) >= 2 else 2
